@@ -52,7 +52,7 @@ def run(ctx):
         jobs.append(e2ejobs.job(rng, strategy=rng.choice(['hierarchical', 'hybrid']), extra=extra,
                                 size='small' if i % 3 else 'medium'))
     for j in jobs:
-        j['timeout'] = 600 if ctx.thorough else 90
+        j['timeout'] = 600 if ctx.thorough else 240
     runs = e2e.run_many(jobs)
     import concurrent.futures
     todo = [(j, r) for j, r in zip(jobs, runs) if not r.hung and r.rc == 0 and r.outtext is not None]
@@ -68,6 +68,13 @@ def run(ctx):
                  sample=dict(options=j['opts'], command=j['cmd'][1:], output=r.outtext[:200], proposals_on_output=f['proposals'],
                              enabled=len(f['enabled'])) if f['proposals'] else None)
         ctx.count(j['opts'][1] + ' -j' + j['opts'][3])
+        fresh = [a for a in f['accepted'] if 'introduce fresh variable' in a['mutator']]
+        other = [a for a in f['accepted'] if a not in fresh]
+        if fresh and not other:
+            ctx.violation('impl-violation', finding_key='F18-fresh-variable-name-from-node-id', input=j['text'], options=j['opts'], command=j['cmd'],
+                          output=r.outtext, observed=f'fresh-variable proposal accepted on the final output: {fresh[0]["candidate"][:200]}',
+                          expected='no proposal accepted')
+        f['accepted'] = other
         if f['accepted']:
             ctx.violation('impl-violation', input=j['text'], options=j['opts'], command=j['cmd'], env=j['env'], output=r.outtext,
                           observed=f'{len(f["accepted"])} proposal(s) on the final output are accepted by the command: {f["accepted"][0]}',
